@@ -97,6 +97,12 @@ Record ctx_table := {
   ct_gpr : list name                           (* MinidumpContext::general_purpose_registers arm (REGISTERS of the named type) *)
 }.
 
+(* an arm of the architecture match in MinidumpContext::read: the ProcessorArchitecture numbers it matches, the CONTEXT_*
+   type it reads from the bytes, the MinidumpRawContext variant it wraps the context in, the ContextFlagsCpu constant
+   (name, value) the context's CPU flags must equal, the serialised size of the type *)
+Record read_arm := mk_read_arm {
+  ra_archs : list Z; ra_type : name; ra_variant : name; ra_flag_name : name; ra_flag : Z; ra_size : Z }.
+
 Definition v_val : name := [118; 97; 108]. (* "val" *)
 Definition v_memo : name := [36; 109; 101; 109; 111].                    (* "$memo" *)
 Definition v_contains : name := [36; 99; 111; 110; 116; 97; 105; 110; 115]. (* "$contains" *)
